@@ -34,6 +34,8 @@ type World struct {
 	structOf  map[string]*types.Named
 	contracts map[string]*FuncContract // by function key
 	specFiles []string
+	macros    map[string]*Macro
+	recvInv   map[string][]*Clause
 }
 
 func shortPkg(path string) string {
@@ -489,4 +491,28 @@ func (w *World) inRepo(f *ssa.Function) bool {
 		return false
 	}
 	return strings.HasPrefix(p.Path(), repoMod)
+}
+
+// recvInvFor returns the receiver-invariant clauses applying to fn (methods with
+// a pointer receiver of an annotated type; constructors are exempt).
+func (w *World) recvInvFor(fn *ssa.Function) ([]*Clause, string) {
+	if len(fn.Params) == 0 || fn.Signature.Recv() == nil {
+		return nil, ""
+	}
+	pt, ok := fn.Signature.Recv().Type().(*types.Pointer)
+	if !ok {
+		return nil, ""
+	}
+	n, ok := pt.Elem().(*types.Named)
+	if !ok {
+		return nil, ""
+	}
+	cs := w.recvInv[typeKey(n)]
+	if len(cs) == 0 {
+		return nil, ""
+	}
+	if fc := w.contracts[funcKey(fn)]; fc != nil && fc.Flags["noinvariant"] {
+		return nil, ""
+	}
+	return cs, fn.Params[0].Name()
 }
